@@ -223,6 +223,8 @@ def call_method(I, recv, name, argexprs, scope, frame, g, hint, e):
             return mkbool(recv.is_empty())
         if name == "len":
             return recv.length()
+        if name in ("to_vec", "to_owned") and isinstance(recv, VecA):
+            return recv.clone()
         if name == "join" and isinstance(recv, VecL):
             sep = arg()
             if not (isinstance(sep, tuple) and sep[0] == "str"):
